@@ -201,3 +201,133 @@ class StdMonitor:
             yield self
         finally:
             NS.consume_sample, NS.populate_live_points, NS.finalise = o_cons, o_pop, o_fin
+
+
+class PoolMonitor:
+    """C09 structural clauses, attached to every population of a real run."""
+
+    def __init__(self):
+        self.errs = []
+        self.populations = 0
+        self.draws = 0
+        self.kinds = set()
+
+    def err(self, c, d=""):
+        self.errs.append((c, str(d)[:300]))
+
+    def check_pool(self, prop, kind, requested=None):
+        self.populations += 1
+        self.kinds.add(kind)
+        m = prop.model
+        s = prop.samples
+        if s is None:
+            self.err(f"{kind}:no-pool-after-populate")
+            return
+        s = np.atleast_1d(s)
+        if kind == "flow":
+            if requested is not None and len(s) != requested:
+                self.err("flow-pool-size-differs-from-requested", f"{len(s)} vs {requested}")
+        elif requested is not None and len(s) > requested:
+            self.err(f"{kind}-pool-larger-than-requested", f"{len(s)} vs {requested}")
+        if len(s) == 0:
+            return
+        if not np.all(m.in_bounds(s)):
+            self.err(f"{kind}:pool-point-outside-prior-bounds", s[~m.in_bounds(s)][:1])
+        if not np.all(np.isfinite(s["logP"])):
+            self.err(f"{kind}:pool-point-with-non-finite-logP")
+        okp, okl, d = model_values(m, s)
+        if not okp:
+            self.err(f"{kind}:pool-logP-differs-from-model", d[:200])
+        if not okl:
+            self.err(f"{kind}:pool-logL-differs-from-model", d[:200])
+        idx = list(prop.indices)
+        if sorted(idx) != list(range(len(s))):
+            self.err(f"{kind}:indices-are-not-a-permutation-of-the-pool", f"{len(idx)} indices for {len(s)} samples")
+        deterministic = type(prop).__name__ == "FlowProposal" and all(
+            type(r).__name__ in ("RescaleToBounds", "NullReparameterisation", "ScaleAndShift", "Rescale") and not getattr(r, "boundary_inversion", False)
+            for r in prop._reparameterisation.values()
+        )
+        # (folded, augmented, clustered or auxiliary-radius maps are not deterministic forwards:
+        #  their contour clause is decided on the latent draws themselves in the population lattice)
+        if kind == "flow" and deterministic and prop.latent_prior in ("truncated_gaussian", "uniform_nball", "uniform_nsphere") and np.isfinite(prop.r):
+            try:
+                z, _ = prop.forward_pass(s.copy(), rescale=True, compute_radius=False)
+                rad = np.sqrt(np.sum(z ** 2, axis=1))
+                lim = prop.r * prop.fuzz
+                # the pool is generated in float32 and mapped forwards again: 1e-3 relative slack
+                n_img = len(z) // len(s) if len(s) else 1
+                if n_img == 1 and np.any(rad > lim * (1 + 1e-3) + 1e-3):
+                    self.err("pool-point-outside-latent-contour", f"radius {rad.max()!r} > r*fuzz {lim!r}")
+            except Exception as e:
+                self.err(f"forward-pass-of-pool-raises-{type(e).__name__}", e)
+        prop._verif_handed = set()
+
+    def check_draw(self, prop, before_indices, new_sample):
+        self.draws += 1
+        handed = getattr(prop, "_verif_handed", None)
+        if handed is None:
+            return
+        after = list(prop.indices)
+        gone = set(before_indices) - set(after)
+        if len(before_indices) - len(after) != 1 or len(gone) != 1:
+            self.err("draw-does-not-consume-exactly-one-index", f"{len(before_indices)} -> {len(after)}")
+            return
+        i = gone.pop()
+        if i in handed:
+            self.err("pool-point-handed-out-twice", i)
+        handed.add(i)
+        try:
+            same = np.asarray(prop.samples[i]).tobytes() == np.asarray(new_sample).tobytes()
+        except Exception:
+            same = True
+        if not same:
+            self.err("drawn-point-is-not-the-indexed-pool-point", i)
+
+    @contextlib.contextmanager
+    def installed(self):
+        from nessai.proposal.flowproposal import FlowProposal
+        from nessai.proposal.rejection import RejectionProposal
+        from nessai.proposal.analytic import AnalyticProposal
+
+        mon = self
+        o_fp, o_rp, o_ap = FlowProposal.populate, RejectionProposal.populate, AnalyticProposal.populate
+        o_fd, o_ad = FlowProposal.draw, AnalyticProposal.draw
+
+        def fp(prop, worst_point, N=10000, **k):
+            r = o_fp(prop, worst_point, N=N, **k)
+            mon.check_pool(prop, "flow", requested=N)
+            return r
+
+        def rp(prop, N=None):
+            r = o_rp(prop, N=N)
+            mon.check_pool(prop, "rejection", requested=N if N is not None else prop.poolsize)
+            return r
+
+        def ap(prop, N=None):
+            r = o_ap(prop, N=N)
+            mon.check_pool(prop, "analytic", requested=N if N is not None else prop.poolsize)
+            return r
+
+        def fd(prop, worst_point):
+            before = list(prop.indices) if prop.populated else None
+            r = o_fd(prop, worst_point)
+            if before is None:
+                before = list(prop.indices) + [i for i in range(len(prop.samples)) if i not in prop.indices]
+            mon.check_draw(prop, before, r)
+            return r
+
+        def ad(prop, old_sample, **k):
+            before = list(prop.indices) if prop.populated else None
+            r = o_ad(prop, old_sample, **k)
+            if before is None:
+                before = list(prop.indices) + [i for i in range(len(prop.samples)) if i not in prop.indices]
+            mon.check_draw(prop, before, r)
+            return r
+
+        FlowProposal.populate, RejectionProposal.populate, AnalyticProposal.populate = fp, rp, ap
+        FlowProposal.draw, AnalyticProposal.draw = fd, ad
+        try:
+            yield self
+        finally:
+            FlowProposal.populate, RejectionProposal.populate, AnalyticProposal.populate = o_fp, o_rp, o_ap
+            FlowProposal.draw, AnalyticProposal.draw = o_fd, o_ad
